@@ -167,6 +167,11 @@ class Check:
 
     # ---- finishing
     def finish(self):
+        for v in self.violations:
+            v.setdefault("seed", self.seed)
+            v.setdefault("tier", self.tier)
+        if getattr(self, "dry", False):
+            return 0
         known = load_known()
         kf = {(f["property"], f["signature"]): f for f in known.get("findings", [])}
         new, listed = [], {}
